@@ -7,18 +7,22 @@ export GOFLAGS=-mod=mod GOPROXY=off GOSUMDB=off GOTOOLCHAIN=local
 D=$(mktemp -d /tmp/ionmut-XXXXXX)
 git -C /repo archive HEAD | tar -x -C "$D"
 ( cd "$D" && git init -q && git add -A >/dev/null && git -c user.email=x@x -c user.name=x commit -qm base )
+demo_run() { # $1 = label
+  if [ -f "$SEED/demo_test.go" ] && [ "${SKIP_DEMO:-}" = "" ]; then
+    place=$(python3 -c "import json;print(json.load(open('$SEED/meta.json')).get('demo_place','ion'))" 2>/dev/null || echo ion)
+    case "$place" in *cmd*) pd=cmd/ion-go;; *) pd=ion;; esac
+    cp "$SEED/demo_test.go" "$D/$pd/zz_demo_test.go"
+    ( cd "$D" && go test -vet=off -count=1 -run 'Seed|Demo' ./$pd/ 2>&1 | tail -2 | sed "s/^/  demo($1): /" )
+    rm -f "$D/$pd/zz_demo_test.go"
+  fi
+}
+demo_run "untouched tree"
 if ! ( cd "$D" && git apply "$SEED/patch.diff" 2>/dev/null || git apply -3 "$SEED/patch.diff" 2>/dev/null || patch -p1 --quiet < "$SEED/patch.diff" ); then
   echo "PATCH-DOES-NOT-APPLY $SEED"; rm -rf "$D"; exit 3
 fi
 ( cd "$D" && go build ./... ) || { echo "DOES-NOT-COMPILE"; rm -rf "$D"; exit 3; }
 if [ "${SKIP_BASELINE:-}" = "" ]; then /verif/tools/baseline.py "$D" | head -3; fi
-if [ -f "$SEED/demo_test.go" ] && [ "${SKIP_DEMO:-}" = "" ]; then
-  place=$(python3 -c "import json;print(json.load(open('$SEED/meta.json')).get('demo_place','ion'))" 2>/dev/null || echo ion)
-  case "$place" in *cmd*) pd=cmd/ion-go;; *) pd=ion;; esac
-  cp "$SEED/demo_test.go" "$D/$pd/zz_demo_test.go"
-  ( cd "$D" && go test -vet=off -count=1 -run 'Seed|Demo|C[0-9][0-9]' ./$pd/ 2>&1 | tail -3 | sed 's/^/  demo(with change): /' )
-  rm -f "$D/$pd/zz_demo_test.go"
-fi
+demo_run "with change"
 rc=0
 for p in "$@"; do
   out=$(cd /verif && VERIF_SEED=${VERIF_SEED:-1} ./check $p quick --ion-src "$D" 2>&1 | grep -E "^(VIOLATION|OK|INCONCLUSIVE|  detail)" | head -4)
